@@ -68,9 +68,12 @@
 use std::path::Path;
 use std::sync::Arc;
 
+#[cfg(feature = "verif-hooks")]
+use crate::verif_hooks::HookedMutex as Mutex;
 use mdk_storage_traits::{Backend, GroupId, MdkStorageError, MdkStorageProvider};
 use openmls_traits::storage::{StorageProvider, traits};
 use rusqlite::Connection;
+#[cfg(not(feature = "verif-hooks"))]
 use std::sync::Mutex;
 
 mod db;
@@ -190,7 +193,11 @@ impl MdkSqliteStorage {
         // Atomically create the database file first, BEFORE making key decisions.
         // This prevents TOCTOU races where another process could create the file
         // between our existence check and key generation.
+        #[cfg(feature = "verif-hooks")]
+        crate::verif_hooks::yield_point("new:start");
         let creation_outcome = precreate_secure_database_file(file_path)?;
+        #[cfg(feature = "verif-hooks")]
+        crate::verif_hooks::yield_point("new:precreated");
 
         let config = match creation_outcome {
             FileCreationOutcome::Created | FileCreationOutcome::Skipped => {
@@ -232,6 +239,8 @@ impl MdkSqliteStorage {
             }
         };
 
+        #[cfg(feature = "verif-hooks")]
+        crate::verif_hooks::yield_point("new:have-key");
         Self::new_internal_skip_precreate(file_path, Some(config))
     }
 
@@ -346,6 +355,8 @@ impl MdkSqliteStorage {
 
         // Apply all migrations (both OpenMLS tables and MDK tables)
         migrations::run_migrations(&mut connection)?;
+        #[cfg(feature = "verif-hooks")]
+        crate::verif_hooks::yield_point("open:migrated");
 
         // Ensure secure permissions on the database file and any sidecar files
         Self::apply_secure_permissions(file_path)?;
@@ -360,12 +371,16 @@ impl MdkSqliteStorage {
         file_path: &Path,
         encryption_config: Option<&EncryptionConfig>,
     ) -> Result<Connection, Error> {
+        #[cfg(feature = "verif-hooks")]
+        crate::verif_hooks::yield_point("open:connection");
         let conn = Connection::open(file_path)?;
 
         // Apply encryption if configured (must be done before any other operations)
         if let Some(config) = encryption_config {
             encryption::apply_encryption(&conn, config)?;
         }
+        #[cfg(feature = "verif-hooks")]
+        crate::verif_hooks::yield_point("open:keyed");
 
         // Enable foreign keys (after encryption is set up)
         conn.execute_batch("PRAGMA foreign_keys = ON;")?;
